@@ -19,7 +19,10 @@ PROPERTY = "C03"
 LEVEL = "exploration"
 
 DTYPES = ["bool", "int8", "int32", "int64", "float16", "float32", "float64"]
-PYSCALARS = {"pybool": True, "pyint": 3, "pyfloat": 2.5, "pyint_neg": -2}
+PYSCALARS = {"pybool": True, "pyint": 3, "pyfloat": 2.5, "pyint_neg": -2, "pyint1": 1, "pyfloat1": 1.0, "pyint2": 2, "pyfloat2": 2.0, "pyfloat_nr": 1.1}
+# exponents for which Tensor.__pow__ has shortcuts, in every container NumPy distinguishes
+EXPONENTS = {"py2": 2, "py2.0": 2.0, "py1": 1, "py1.0": 1.0, "pyTrue": True, "nd0d_2.0": np.array(2.0), "nd0d_2": np.array(2), "nd(1,)_2.0": np.array([2.0]),
+             "nd(1,1)_2.0": np.array([[2.0]]), "nd(1,)_1": np.array([1]), "npf32_2": np.float32(2), "npi8_2": np.int8(2), "nd(3,)_2": np.array([2.0, 2.0, 2.0]), "py3": 3, "py0.5": 0.5}
 SHAPES = [(), (3,), (2, 3), (0,)]
 
 
@@ -83,6 +86,21 @@ def cells(tier):
     for o in ("neg", "pos"):
         for d1 in DTYPES:
             yield ("O1", o, d1)
+    for d1 in DTYPES:
+        for shape in ((), (3,), (2, 0)):
+            for e in EXPONENTS:
+                for form in ("**", "mg.power", "**="):
+                    if form == "**=" and (d1 == "bool" or np.ndim(EXPONENTS[e]) > 0 or shape == ()):
+                        continue  # (in-place power of booleans / with an exponent that does not fit the target: NumPy raises in version-specific ways)
+                    yield ("P", d1, shape, e, form)
+    # two calls in one process: equal-valued Python scalars of different types must not influence each other
+    for b in ("add", "multiply", "power", "maximum"):
+        for d1 in DTYPES:
+            for ka, kb in (("pyint2", "pyfloat2"), ("pyfloat2", "pyint2"), ("pyint1", "pyfloat1"), ("pyfloat1", "pybool"), ("pybool", "pyint1"), ("pyint1", "pybool")):
+                yield ("SEQ", b, d1, ka, kb)
+    for fn in ("stack", "concatenate", "where", "add_sequence"):
+        for kinds in (("pyfloat", "npf32"), ("npf32", "pyfloat"), ("pyint", "f32arr"), ("f32arr", "pyfloat"), ("i8arr", "pyint"), ("pyfloat", "pyint")):
+            yield ("SQ", fn, kinds)
     RED = ["sum", "mean", "prod", "var", "std", "max", "min", "cumsum", "cumprod", "any", "argmax", "argmin"]
     for r in RED:
         for dt in DTYPES:
@@ -194,6 +212,9 @@ def check(cell):
     import mygrad as mg
 
     kind = cell[0]
+    if kind in ("P", "O") and cell[1 if kind == "P" else 2] == "bool" and (cell[3] in ("py2", "pyint2")) and (kind == "P" and cell[4] == "**" or kind == "O" and cell[1] == "pow"):
+        # NumPy's own `bool_array ** 2` (square fast path: int8) disagrees with numpy.power(bool_array, 2) (int64)
+        return ("skip", "NumPy's operator and function disagree with each other here")
     if kind == "U":
         _, u, dt, shape, lay, kw = cell
         x = arr(shape, dt, 1)
@@ -259,6 +280,46 @@ def check(cell):
         f = getattr(operator, o)
         x = arr((3,), d1, 1)
         return compare(lambda: f(T(x)), lambda: f(x), lambda: f(T(x)))
+    if kind == "P":
+        _, d1, shape, e, form = cell
+        x = arr(shape, d1, 1)
+        ex = EXPONENTS[e]
+        if form == "**":
+            return compare(lambda: T(x) ** ex, lambda: x ** ex, lambda: T(x) ** ex)
+        if form == "mg.power":
+            return compare(lambda: mg.power(T(x), ex), lambda: np.power(x, ex), lambda: mg.power(T(x), ex))
+
+        def aug_mg():
+            t = mg.tensor(x, constant=True)
+            t **= ex
+            return t
+
+        def aug_np():
+            a = x.copy()
+            a **= ex
+            return a
+
+        return compare(aug_mg, aug_np, None)
+    if kind == "SEQ":
+        _, b, d1, ka, kb = cell
+        x = arr((3,), d1, 1)
+        npf, mgf = getattr(np, b), getattr(mg, b)
+        for k in (ka, kb):
+            r = compare(lambda: mgf(T(x), PYSCALARS[k]), lambda: npf(x, PYSCALARS[k]), None)
+            if r is not None:
+                return (r[0], "call with %s (after a call with %s): %s" % (k, ka, r[1])) if k == kb else r
+        return None
+    if kind == "SQ":
+        _, fn, kinds = cell
+        mk = {"pyfloat": lambda: 2.5, "pyint": lambda: 3, "npf32": lambda: np.float32(2), "f32arr": lambda: np.array(1.5, dtype=np.float32), "i8arr": lambda: np.array(4, dtype=np.int8)}
+        a, b_ = mk[kinds[0]](), mk[kinds[1]]()
+        if fn == "stack":
+            return compare(lambda: mg.stack([a, b_]), lambda: np.stack([a, b_]), None)
+        if fn == "concatenate":
+            return compare(lambda: mg.concatenate([[a], [b_]]), lambda: np.concatenate([[a], [b_]]), None)
+        if fn == "where":
+            return compare(lambda: mg.where(True, a, b_), lambda: np.where(True, a, b_), None)
+        return compare(lambda: mg.add_sequence(a, b_, a), lambda: a + b_ + a, None)
     if kind == "R":
         _, r, dt, shape, axis, kd, kw, form = cell
         x = arr(shape, dt, 2)
@@ -314,7 +375,7 @@ def outcome(cell):
 
 
 def signature(cell, f):
-    return base.stable_hash((cell[0], cell[1] if cell[0] in ("U", "B", "O", "O1", "R") else "", f[0], f[1][:24]))
+    return base.stable_hash((cell[0], cell[1] if cell[0] in ("U", "B", "O", "O1", "R", "SEQ", "SQ") else (cell[4] if cell[0] == "P" else ""), f[0], f[1][:24]))
 
 
 def script(cell, f):
@@ -347,4 +408,19 @@ def m_weak_scalar_promotion(v):
     return has_py and f.get("kind") in ("dtype", "untracked_dtype", "value", "untracked_value", "not_rejected", "exception")
 
 
-MATCHERS = {"weak_scalar_promotion": m_weak_scalar_promotion}
+def m_pow_shortcut_keeps_base_dtype(v):
+    """F-C03b: `t ** e` / `t **= e` with a scalar (or 0-d array) exponent equal to 1 or 2 is evaluated as +t / square(t),
+    which keeps t's dtype where NumPy's power promotes with the exponent's dtype (or rejects the in-place cast)."""
+    f = v.get("failure") or {}
+    cell = (v.get("case") or {}).get("cell") or []
+    if not cell or f.get("kind") not in ("dtype", "untracked_dtype", "not_rejected", "value", "untracked_value"):
+        return False
+    if cell[0] == "P":
+        e = EXPONENTS[cell[3]]
+        return cell[4] in ("**", "**=") and np.ndim(e) == 0 and not isinstance(e, bool) and e in (1, 2)
+    if cell[0] == "O" and cell[1] == "pow" and not cell[4]:
+        return cell[3] in PYSCALARS and not isinstance(PYSCALARS[cell[3]], bool) and PYSCALARS[cell[3]] in (1, 2)
+    return False
+
+
+MATCHERS = {"weak_scalar_promotion": m_weak_scalar_promotion, "pow_shortcut_keeps_base_dtype": m_pow_shortcut_keeps_base_dtype}
